@@ -172,6 +172,43 @@ def witness_restore_fault(out):
     return 2
 
 
+def witness_revert_inplace(out):
+    """Model-free: a command that rewrites its output IN PLACE (`cat in > out`, no rm: the same inode is truncated and refilled) and
+    a history that keeps returning to an earlier state: v1, v2, v1 (restored from the cache), v3 (a miss: rewrites the restored file
+    in place), v1 (restored again).  Every build must leave what a from-scratch build of that state leaves: a restored file must
+    not share storage with the cache entry it came from."""
+    import os, subprocess, shutil
+    grog = vlib.build_grog()
+    base = os.path.join(vlib.scratch(), "revertinplace")
+    shutil.rmtree(base, ignore_errors=True)
+    ws, root = os.path.join(base, "ws"), os.path.join(base, "root")
+    os.makedirs(ws); os.makedirs(root)
+    json.dump({"targets": [{"name": "t", "inputs": ["in.txt"], "outputs": ["out.txt", "dir::d"],
+                            "command": "cat in.txt > out.txt; mkdir -p d; cat in.txt in.txt > d/twice.txt"},
+                           {"name": "u", "dependencies": [":t"], "outputs": ["u.txt"], "command": "cat out.txt d/twice.txt > u.txt"}]},
+              open(os.path.join(ws, "BUILD.json"), "w"))
+    open(os.path.join(ws, "grog.toml"), "w").write("")
+    env = bl.grog_env(root, os.path.join(base, "trace"))
+    seq = ["v1", "v2", "v1", "v3", "v1", "v2", "v3"]
+    obs = []
+    for k, v in enumerate(seq):
+        open(os.path.join(ws, "in.txt"), "w").write("content %s\n" % v)
+        p = subprocess.run([grog, "build", "//..."], cwd=ws, env=env, stdout=subprocess.PIPE, stderr=subprocess.PIPE, text=True, timeout=120)
+        rd = lambda f: open(os.path.join(ws, f)).read() if os.path.exists(os.path.join(ws, f)) else None
+        got = {"rc": p.returncode, "out.txt": rd("out.txt"), "d/twice.txt": rd("d/twice.txt"), "u.txt": rd("u.txt")}
+        c = "content %s\n" % v
+        want = {"rc": 0, "out.txt": c, "d/twice.txt": c + c, "u.txt": c + c + c}      # what a from-scratch build of this state writes
+        obs.append({"input": v, "observed": got})
+        if got != want:
+            out.violation("build %d of the history %s (commands rewrite their outputs in place) leaves %s; a from-scratch build of this state "
+                          "leaves %s" % (k, seq, got, want),
+                          {"description": ["//:t: cat in.txt > out.txt; cat in.txt in.txt > d/twice.txt (dir::d); //:u reads both",
+                                           "in.txt takes the values %s with a build after each, one cache" % seq], "observed": obs})
+            break
+    shutil.rmtree(base, ignore_errors=True)
+    return len(obs)
+
+
 def run(out, tier):
     n_clean, n_full = (40, 40) if tier == "quick" else (600, 900)
     plans = [("witness-alias", hc.witness_alias_change()), ("witness-file-boundary", hc.witness_file_boundary())]
@@ -184,6 +221,7 @@ def run(out, tier):
     oracle_evals = witness_dep_swap(out, findings)
     oracle_evals += witness_nocache_swap(out)
     oracle_evals += witness_restore_fault(out)
+    oracle_evals += witness_revert_inplace(out)
     for name, h, notes, m in batch:
         for note in notes:
             if note[0] == "plan-error":
